@@ -448,6 +448,48 @@ def weights_frame(rep):
         else:
             detail = f"paths={len(paths)} exc={[repr(p_.exc) for p_ in paths][:2]}"
         rep.add(ob_eval(f"{rep.pid}/weights-frame/{name}/result depends on the coupling object of this call only; fresh dictionaries", ok, kind="frame", detail=detail, inputs={} if ok else {"sequence": "f(A), f(B), f(A) with A, B coupling objects of different contract values at the same (Q2, nf, ...)", "observed": detail}))
+    weights_same_object_history(rep)
+
+
+def weights_same_object_history(rep):
+    """One coupling object serves every structure function, mask, flavour number and parity of a run:
+    on ONE object, a sequence of requests that differ in exactly one argument (parity, mask, nf, Q2)
+    is answered each like a fresh object answers it (nothing remembered between calls may leave an
+    argument out)."""
+    from yadism.coefficient_functions import kernels, light, heavy
+    from pvc.core import ob_eval
+    from pvc.explore import explore
+
+    sy = Sy(extra="Qb")
+
+    def flat(d):
+        return {(ch, p): repr(v) for ch, ws in d.items() for p, v in ws.items()}
+
+    seqs = {
+        "cc_weights": [(sy.Q2, "c", 3, False), (sy.Q2, "c", 3, True), (sy.Q2, "c", 3, False), (sy.Q2, "b", 3, True), (sy.Q2, "c", 4, True), (sy.Qb, "c", 3, True), (sy.Q2, "c", 3, True)],
+        "cc_weights_even": [(sy.Q2, "dus", 3, False), (sy.Q2, "dus", 3, True), (sy.Q2, "dusc", 3, True), (sy.Q2, "dus", 4, True), (sy.Qb, "dus", 3, True), (sy.Q2, "dus", 3, False)],
+        "cc_weights_odd": [(sy.Q2, "dus", 3, False), (sy.Q2, "dus", 3, True), (sy.Q2, "dusc", 3, True), (sy.Q2, "dus", 4, True), (sy.Qb, "dus", 3, True), (sy.Q2, "dus", 3, False)],
+    }
+    for proj_pid in (11, -11, 12, -12):
+        for fn_, seq in seqs.items():
+            rep.cases += 1
+
+            def run_(seq=seq, fn_=fn_, proj_pid=proj_pid):
+                one = WStub(sy, "CC", proj_pid, cc_spec=True)
+                same = [flat(getattr(kernels, fn_)(one, q2, mask, nf, pv)) for q2, mask, nf, pv in seq]
+                fresh = [flat(getattr(kernels, fn_)(WStub(sy, "CC", proj_pid, cc_spec=True), q2, mask, nf, pv)) for q2, mask, nf, pv in seq]
+                return same, fresh
+
+            paths = explore(run_, [sy.Q2 > 0, sy.Qb > 0])
+            ok = bool(paths) and all(p.exc is None for p in paths)
+            detail = ""
+            if ok:
+                bad = [(i, seq[i][1:]) for p in paths for i, (a, b) in enumerate(zip(*p.result)) if a != b]
+                ok = not bad
+                detail = f"requests answered differently by the object that served the earlier ones: (position, (mask, nf, parity violating)) {bad[:3]}"
+            else:
+                detail = f"exc={[repr(p_.exc) for p_ in paths][:2]}"
+            rep.add(ob_eval(f"{rep.pid}/weights-history/{fn_}/projectile {proj_pid}: one coupling object, requests differing in parity / mask / nf / Q2", ok, kind="frame", detail=detail if not ok else f"{len(seq)} requests", inputs={} if ok else {"sequence (mask, nf, parity violating)": str([t[1:] for t in seq]), "observed": detail}))
 
 
 def _scheme_families_worker(sub, c):
@@ -471,6 +513,22 @@ def _scheme_families_worker(sub, c):
         allowed = {"light"}
     bad = [f for f in fams if f not in allowed]
     _massive_flavours_alike(sub, c, ks, sy)
+    # which kernels are collected is a matter of the configuration and of nf, never of where the point
+    # lies relative to a production threshold (thresholds act INSIDE the coefficient functions, and only
+    # pair production has one): the same classes with the same parton keys at a point below the charm
+    # pair threshold
+    try:
+        sy_low = Sy().numeric({"x": 0.5, "Q2": 5.0, "m2c": 2.0, "m2b": 20.0, "m2t": 3.0e4})
+        ks_low, _ = collect(sy_low, cell_configs(sy_low, c), c["kind"], c["flavor"], c["nf"])
+        sig = lambda kk: sorted((type(k.coeff).__module__.split(".", 2)[2] + "." + type(k.coeff).__name__, tuple(sorted(k.partons))) for k in kk)  # noqa: E731
+        a, b = sig(ks), sig(ks_low)
+        ok_kin = a == b
+        detail = f"{len(a)} kernels at (x=0.01, Q2=5e4), {len(b)} at (x=0.5, Q2=5)" + ("" if ok_kin else f"; only above: {[t for t in a if t not in b][:4]}; only below: {[t for t in b if t not in a][:4]}")
+    except Exception as e:  # noqa
+        ok_kin, detail = False, f"{type(e).__name__}: {e}"
+    from pvc.core import ob_eval as _ob_eval
+
+    sub.add(_ob_eval(f"{sub.pid}/scheme-dispatch/{cell_name(c)}/the kernel list does not depend on the kinematic point (fixed nf)", ok_kin, detail=detail, inputs={} if ok_kin else {"cell": cell_name(c), "points": "(x=0.01, Q2=5e4) vs (x=0.5, Q2=5), m2c=2, m2b=20, m2t=3e4", "observed": detail}))
     sub.add(ob_eval(f"{sub.pid}/scheme-dispatch/{cell_name(c)}/kernel families {sorted(allowed)} only", not bad, detail=f"families collected: {fams}", inputs={} if not bad else {"cell": cell_name(c), "families": str(fams), "offending classes": str(sorted({type(k.coeff).__module__.split('.', 2)[2] + '.' + type(k.coeff).__name__ for k in ks if type(k.coeff).__module__.split('.')[2] in bad})[:6])}))
 
 
